@@ -376,7 +376,8 @@ def cli(x, p):
     from pico8 import tool
     from pico8.game import file as gfile
     from pico8.game.game import Game
-    src = b'-- t\nfoo=bar - -baz\nif (foo) qux=1 ..foo\nt[ [[k]] ]=foo\n'
+    src = (b'-- t\nfoo=bar - -baz\nif (foo) qux=1 ..foo\nt[ [[k]] ]=foo\n'
+           b'span=1..5 ..0x1f..foo\n')
     g = Game.make_empty_game(filename='x.p8')
     g.lua = lua.Lua.from_lines([src], version=8)
     keep_all = x.bool('keep_all')
